@@ -24,6 +24,13 @@ type Monitor struct {
 	Plan func(n int, replyLen int) (chunks []int, yields []int)
 	// OnRequest is called (outside the lock) after the n-th request has arrived.
 	OnRequest func(n int)
+	// Abandonable reports whether the call that sent this request may legitimately give up before reading its reply
+	// (its context can be cancelled). Unread bytes of such an exchange are discarded when the next request arrives
+	// instead of being reported as interleaving.
+	Abandonable func(r spec.Req) bool
+	// Delay returns how long the reply to the request is withheld (the exchange stays open meanwhile).
+	Delay func(r spec.Req) time.Duration
+	Dropped int
 	// Wake lets tests observe activity
 	conns int
 }
@@ -49,6 +56,8 @@ type ArrivalConn struct {
 	closed   bool
 	deadline time.Time
 	busy     int // number of transport calls currently inside Read/Write (overlap detection)
+	owner    spec.Req  // request whose reply is pending
+	readyAt  time.Time // the pending reply becomes readable at this time
 }
 
 // NewConn creates a connection attached to the monitor.
@@ -91,7 +100,13 @@ func (c *ArrivalConn) Write(p []byte) (int, error) {
 		m.violate("conn %d: Write called while another transport call on the same connection is in progress", c.id)
 	}
 	if len(c.pending) > 0 {
-		m.violate("conn %d: a request frame (%x) was written while %d bytes of the previous reply were still unread: frames interleaved on the wire", c.id, p, len(c.pending))
+		if m.Abandonable != nil && m.Abandonable(c.owner) {
+			// the previous caller was allowed to give up (cancelled context): its unread reply is discarded
+			c.pending = nil
+			m.Dropped++
+		} else {
+			m.violate("conn %d: a request frame (%x) was written while %d bytes of the reply to the previous request (unit %d addr %d) were still unread: frames interleaved on the wire", c.id, p, len(c.pending), c.owner.Unit, c.owner.Addr)
+		}
 	}
 	tx, unit, pdu, err := spec.Unframe(m.F, p)
 	var n int
@@ -108,6 +123,13 @@ func (c *ArrivalConn) Write(p []byte) (int, error) {
 		n = len(m.Arrivals)
 		reply := m.Dev.Answer(m.F, p)
 		c.pending = append(c.pending, reply...)
+		c.owner = r
+		c.readyAt = time.Time{}
+		if m.Delay != nil {
+			if d := m.Delay(r); d > 0 {
+				c.readyAt = time.Now().Add(d)
+			}
+		}
 		if m.Plan != nil {
 			c.chunks, c.yields = m.Plan(n, len(reply))
 		} else {
@@ -138,7 +160,7 @@ func (c *ArrivalConn) Read(p []byte) (int, error) {
 	if c.busy > 1 {
 		m.violate("conn %d: Read called while another transport call on the same connection is in progress", c.id)
 	}
-	if len(c.pending) == 0 {
+	if len(c.pending) == 0 || time.Now().Before(c.readyAt) {
 		wait := 300 * time.Microsecond
 		if !m.Serial && !c.deadline.IsZero() {
 			wait = time.Until(c.deadline)
